@@ -4,6 +4,8 @@ CONSTANTS
   Bound = 1
   MaxCrashes = 2
   PopBeforeSave = TRUE
+  ReInject = FALSE
+  WriteFails = FALSE
 INVARIANTS NoLoss NoDupWithoutCrash
 PROPERTIES EventuallyIncluded
 CHECK_DEADLOCK FALSE
